@@ -196,7 +196,7 @@ func checkC10(c *Ctx, r *Report) {
 		switch s.closeOnReject {
 		case "call":
 			q := &Cut{Fn: f, FromEdges: rej, Sep: func(in ssa.Instruction) bool {
-				return calleeNameIs(in, "Close", "CloseWithError", "closeWithError")
+				return releasesLike(in, "Close", "CloseWithError", "closeWithError")
 			}, Target: func(in ssa.Instruction) bool {
 				if nextEval(in) {
 					return true // next loop iteration
